@@ -81,7 +81,7 @@ CHECKS = {
          "other",
          "Layer (1) is bounded symbolic model checking. Layer (2) is class enumeration with concrete execution per class: a symbolic start year made every calendar query `unknown` (measured), so the solver does not decide this layer; it is kept because it is what detects iteration/carry/mask regressions.",
          "Trusted: the reference implementation harness/rfc5545.py (agrees with dateutil on 10 000 random rules apart from the recorded findings); the paper argument that rrule's behaviour is uniform within a calendar class. Shapes/starts outside the cell list, prefixes beyond K are outside.", "§5 C01", "chx"),
- "C02": ("symbolic execution (CrossHair core + z3) of the real parser (_parse, _parse_numeric_token, _ymd.resolve_ymd, _build_naive, _build_tzaware) on ~30-70 text templates whose digits are solver variables; kernels resolve_ymd / convertyear / _adjust_ampm with symbolic values; path-exhaustive per template",
+ "C02": ("symbolic execution (CrossHair core + z3) of the real parser (_parse, _parse_numeric_token, _ymd.resolve_ymd, _build_naive, _build_tzaware) on ~30-70 text templates whose digits are solver variables; kernels resolve_ymd / convertyear / _adjust_ampm with symbolic values; path-exhaustive per template; the fraction-scaling kernel _parsems is re-read from the source and translated to QF_BVFP (digit runs as bit-vectors, float() / * / int() with IEEE binary64 semantics), one unsat obligation per text shape",
          "model_checking",
          "Bounded symbolic model checking: for each template every value of every digit-bearing field (valid calendar/clock values) is covered; z3 proves on each path that the parsed datetime equals the rendered fields, truncated to the rendered precision, aware with the rendered offset.",
          "%s Month/weekday names are enumerated templates; free text, fractions > 6 digits, bytes/stream input are outside. Local zone names fixed to non-UTC names." % PT, "§5 C02", "chx"),
